@@ -2864,3 +2864,344 @@ Proof.
   destruct (drun_from dehb_witness_first Min (Some 1%nat) dehb_witness_ops) as [st|e] eqn:E; vm_compute in E; [|discriminate].
   inversion E; subst st. eexists _, _, _. split; [reflexivity|]. split; [left; reflexivity|]. vm_compute. reflexivity.
 Qed.
+
+(* ======================================================================== *)
+(* Part 9: the top list in order; a rung completes exactly with its last value *)
+(* ======================================================================== *)
+
+(* entries with the same metric value as [z] *)
+Definition same_key (z x : tid * Q) : bool := Qeq_bool (snd z) (snd x).
+
+Lemma better_eq_of_eq : forall m a b, Qeq_bool a b = true -> better_eq m a b = true.
+Proof.
+  intros m a b H. apply Qeq_bool_iff in H. destruct m; simpl; unfold Qleb; apply Qle_bool_iff; rewrite H; apply Qle_refl.
+Qed.
+
+Lemma same_key_strict : forall m z x y, same_key z x = true -> better_eq m (snd x) (snd y) = false -> same_key z y = false.
+Proof.
+  intros m z x y Hzx Hxy. unfold same_key in *. destruct (Qeq_bool (snd z) (snd y)) eqn:E; [|reflexivity].
+  exfalso. apply Qeq_bool_iff in Hzx. apply Qeq_bool_iff in E.
+  assert (Qeq_bool (snd x) (snd y) = true) by (apply Qeq_bool_iff; rewrite <- Hzx; exact E).
+  rewrite (better_eq_of_eq m _ _ H) in Hxy. discriminate.
+Qed.
+
+(* inserting keeps, for every metric value, the input order of the entries having it: x goes in
+   front of the entries that are not strictly better, in particular in front of its equals *)
+Lemma insert_sorted_stable : forall m z x l,
+  filter (same_key z) (insert_sorted m x l) = filter (same_key z) (x :: l).
+Proof.
+  intros m z x. induction l as [|y l IH]; [reflexivity|]. simpl insert_sorted.
+  destruct (better_eq m (snd x) (snd y)) eqn:E; [reflexivity|].
+  simpl. simpl in IH. rewrite IH. destruct (same_key z x) eqn:Zx.
+  - rewrite (same_key_strict m z x y Zx E). reflexivity.
+  - reflexivity.
+Qed.
+
+Lemma sort_stable_stable : forall m z l, filter (same_key z) (sort_stable m l) = filter (same_key z) l.
+Proof.
+  intros m z. induction l as [|x l IH]; [reflexivity|]. simpl sort_stable.
+  rewrite insert_sorted_stable. simpl. rewrite IH. reflexivity.
+Qed.
+
+(* get_top_list, exactly.  No hypothesis on the trial ids.
+   Enough valid entries: the first new_len entries of the valid entries sorted by metric (best first
+   for the mode, equal metrics in rung order) and no failed entry.
+   Fewer valid entries than slots: ALL valid entries (the code keeps them in rung order here), and
+   behind them the first failed entries in rung order as padding. *)
+Theorem get_top_list_order : forall m rung new_len top rest,
+  get_top_list m rung new_len = (top, rest) -> (new_len <= length rung)%nat ->
+  exists srt,
+    Permutation srt (valid_entries rung) /\
+    StronglySorted (fun a b => better_eq m (snd a) (snd b) = true) srt /\
+    (forall z, filter (same_key z) srt = filter (same_key z) (valid_entries rung)) /\
+    length top = new_len /\
+    (((new_len <= length (valid_entries rung))%nat /\ top = map fst (firstn new_len srt)) \/
+     ((length (valid_entries rung) < new_len)%nat /\
+      top = map fst (valid_entries rung) ++ firstn (new_len - length (valid_entries rung)) (invalid_ids rung))).
+Proof.
+  intros m rung k top rest G Hk. unfold get_top_list in G.
+  set (rv := valid_entries rung) in *.
+  assert (Lvi := valid_invalid_length rung). fold rv in Lvi.
+  exists (sort_stable m rv).
+  assert (Ps : Permutation (sort_stable m rv) rv) by apply sort_stable_perm.
+  assert (Ls : length (sort_stable m rv) = length rv) by (apply Permutation_length; exact Ps).
+  split; [exact Ps|]. split; [apply sort_stable_sorted|]. split; [intro z; apply sort_stable_stable|].
+  destruct (Nat.leb k (length rv)) eqn:E.
+  - apply Nat.leb_le in E. inversion G as [[Top Rem]]. clear G Rem.
+    split; [rewrite map_length, firstn_length; lia|]. left. split; [exact E|reflexivity].
+  - apply Nat.leb_gt in E. inversion G as [[Top Rem]]. clear G Rem.
+    split; [rewrite app_length, map_length, firstn_length; lia|]. right. split; [exact E|reflexivity].
+Qed.
+
+(* ---- a rung completes exactly when its last slot receives a value --------------------------- *)
+Lemma is_full_iff : forall sl ffp, is_full sl ffp = true <->
+  (length sl <= ffp)%nat /\ forall s, In s sl -> snd s <> None.
+Proof.
+  intros sl ffp. split; [apply is_full_spec|]. intros [L A]. unfold is_full, count_pending.
+  apply andb_true_iff. split; [apply Nat.leb_le; exact L|]. apply Nat.eqb_eq.
+  rewrite firstn_all2 by exact L.
+  destruct (filter (fun x => is_none (snd x)) sl) as [|x l] eqn:E; [reflexivity|].
+  assert (I : In x (filter (fun x => is_none (snd x)) sl)) by (rewrite E; left; reflexivity).
+  apply filter_In in I. destruct I as [I N]. exfalso. apply (A _ I). destruct (snd x); [discriminate|reflexivity].
+Qed.
+
+Lemma upd_all_valued : forall (sl : list slot) pos t v, (pos < length sl)%nat ->
+  ((forall s, In s (upd sl pos (t, Some v)) -> snd s <> None) <->
+   (forall p s, p <> pos -> nth_error sl p = Some s -> snd s <> None)).
+Proof.
+  intros sl pos t v L. split.
+  - intros A p s Np Hs. apply A. eapply nth_error_In.
+    rewrite nth_error_upd_neq by (intro Heq; apply Np; symmetry; exact Heq). exact Hs.
+  - intros A s Hs. apply In_nth_error in Hs. destruct Hs as [p Hp]. apply nth_error_upd in Hp.
+    destruct Hp as [[_ ->]|[Np Hp]]; [discriminate|]. eapply A; [|exact Hp]. intro Heq. apply Np. symmetry. exact Heq.
+Qed.
+
+Theorem rung_completes_iff_last_value : forall b r sl lv b' out,
+  current_rung_and_level b = Ok (sl, lv) -> bracket_on_result b r = Ok (b', out) ->
+  (current_rung b' = S (current_rung b) <->
+     ((length sl <= first_free_pos b)%nat /\
+      forall pos s, pos <> slot_index r -> nth_error sl pos = Some s -> snd s <> None)) /\
+  (current_rung b' = current_rung b \/ current_rung b' = S (current_rung b)) /\
+  (current_rung b' = current_rung b ->
+     first_free_pos b' = first_free_pos b /\
+     exists v, metric_val r = Some v /\
+       current_rung_and_level b' = Ok (upd sl (slot_index r) (trial_id r, Some v), lv)).
+Proof.
+  intros b r sl lv b' out C R.
+  destruct (bor_inv _ _ _ _ _ _ C R) as [_ [E2 [_ [[t0 N] [v [MV Cases]]]]]]. cbv zeta in Cases.
+  destruct (crl_inv _ _ _ C) as [Nth _].
+  assert (Lc : (current_rung b < length (rungs b))%nat) by (eapply nth_error_lt; eauto).
+  assert (Lp : (slot_index r < length sl)%nat) by (destruct N as [N _]; eapply nth_error_lt; eauto).
+  assert (Full : is_full (upd sl (slot_index r) (trial_id r, Some v)) (first_free_pos b) = true <->
+            ((length sl <= first_free_pos b)%nat /\
+             forall pos s, pos <> slot_index r -> nth_error sl pos = Some s -> snd s <> None)).
+  { rewrite is_full_iff, upd_length, (upd_all_valued sl _ _ _ Lp). tauto. }
+  unfold slot, tid in *.
+  destruct Cases as [[F [-> _]]|[[F [_ [-> _]]]|[F [nl [ms [vals [top [rem [_ [_ [_ [-> _]]]]]]]]]]]]; cbn [current_rung first_free_pos].
+  - split; [|split; [left; reflexivity|]].
+    + split; [lia|]. intro X. apply Full in X. congruence.
+    + intros _. split; [reflexivity|]. exists v. split; [exact MV|]. apply crl_of_nth. cbn [rungs current_rung].
+      apply nth_error_upd_eq. exact Lc.
+  - split; [|split; [right; reflexivity|intro X; lia]]. split; [intros _; apply Full; exact F|reflexivity].
+  - split; [|split; [right; reflexivity|intro X; lia]]. split; [intros _; apply Full; exact F|reflexivity].
+Qed.
+
+Theorem dehb_rung_completes_iff_last_value : forall b r sl lv b' out,
+  current_rung_and_level b = Ok (sl, lv) -> dehb_bracket_on_result b r = Ok (b', out) ->
+  (current_rung b' = S (current_rung b) <->
+     ((length sl <= first_free_pos b)%nat /\
+      forall pos s, pos <> slot_index r -> nth_error sl pos = Some s -> snd s <> None)) /\
+  (current_rung b' = current_rung b \/ current_rung b' = S (current_rung b)).
+Proof.
+  intros b r sl lv b' out C R.
+  destruct (dbor_inv _ _ _ _ _ _ C R) as [_ [E2 [_ [[t0 N] [v [MV Cases]]]]]]. cbv zeta in Cases.
+  assert (Lp : (slot_index r < length sl)%nat) by (eapply nth_error_lt; eauto).
+  assert (Full : is_full (upd sl (slot_index r) (trial_id r, Some v)) (first_free_pos b) = true <->
+            ((length sl <= first_free_pos b)%nat /\
+             forall pos s, pos <> slot_index r -> nth_error sl pos = Some s -> snd s <> None)).
+  { rewrite is_full_iff, upd_length, (upd_all_valued sl _ _ _ Lp). tauto. }
+  unfold slot, tid in *.
+  destruct Cases as [[F [-> _]]|[F [-> _]]]; cbn [current_rung].
+  - split; [|left; reflexivity]. split; [lia|]. intro X. apply Full in X. congruence.
+  - split; [|right; reflexivity]. split; [intros _; apply Full; exact F|reflexivity].
+Qed.
+
+(* ======================================================================== *)
+(* Part 10: the cache of top_of_previous_rung is transparent                  *)
+(* ======================================================================== *)
+
+Lemma tlfpr_ext : forall b1 b0, rungs b1 = rungs b0 -> current_rung b1 = current_rung b0 -> bmode b1 = bmode b0 ->
+  top_list_for_previous_rung b1 = top_list_for_previous_rung b0.
+Proof.
+  intros b1 b0 E1 E2 E3. unfold top_list_for_previous_rung, size_of_current_rung, current_rung_and_level.
+  rewrite E1, E2, E3. reflexivity.
+Qed.
+
+Lemma nfs_frame : forall b b' o, next_free_slot b = Ok (b', o) ->
+  rungs b' = rungs b /\ current_rung b' = current_rung b /\ bmode b' = bmode b.
+Proof.
+  intros b b' o H. unfold next_free_slot in H.
+  destruct (is_bracket_complete b); [inversion H; auto|].
+  destruct (current_rung_and_level b) as [[sl lv]|e]; [|discriminate].
+  destruct (nth_error sl (first_free_pos b)) as [[t mv]|]; inversion H; auto.
+Qed.
+
+Lemma try_brackets_frame : forall bs ids bs' i s, try_brackets bs ids = Ok (Some (bs', i, s)) ->
+  exists b b', nth_error bs i = Some b /\ bs' = upd bs i b' /\
+    rungs b' = rungs b /\ current_rung b' = current_rung b /\ bmode b' = bmode b.
+Proof.
+  intros bs. induction ids as [|j ids IH]; intros bs' i s H; simpl in H; [discriminate|].
+  destruct (nth_error bs j) as [b|] eqn:Nb; [|discriminate].
+  destruct (next_free_slot b) as [[b' [s'|]]|e] eqn:E; try discriminate.
+  - inversion H; subst. exists b, b'. split; [exact Nb|]. split; [reflexivity|]. eapply nfs_frame; eauto.
+  - eapply IH; eauto.
+Qed.
+
+Lemma dnext_frame : forall m m' j, dehb_next_job m = Ok (m', j) ->
+  forall k b0, nth_error (m_brackets m) k = Some b0 ->
+    exists b1, nth_error (m_brackets m') k = Some b1 /\
+      rungs b1 = rungs b0 /\ current_rung b1 = current_rung b0 /\ bmode b1 = bmode b0.
+Proof.
+  intros m m' j H k b0 Nk. unfold dehb_next_job in H.
+  assert (Lk : (k < length (m_brackets m))%nat) by (eapply nth_error_lt; eauto).
+  destruct (try_brackets (m_brackets m) _) as [[[[bs' i] s]|]|e] eqn:T; try discriminate.
+  - inversion H; subst. cbn [m_brackets set_brackets].
+    destruct (try_brackets_frame _ _ _ _ _ T) as [b [b' [Nb [-> [R1 [R2 R3]]]]]].
+    destruct (Nat.eq_dec i k) as [->|NE].
+    + rewrite Nb in Nk. inversion Nk; subst b0. exists b'. split; [apply nth_error_upd_eq; exact Lk|auto].
+    + exists b0. rewrite nth_error_upd_neq by exact NE. auto.
+  - unfold dehb_create_new_bracket in H.
+    destruct (negb _); [discriminate|]. cbn [m_brackets] in H.
+    rewrite nth_error_app2 in H by lia. rewrite Nat.sub_diag in H. cbn [nth_error] in H.
+    destruct (next_free_slot _) as [[b' [s'|]]|e] eqn:E; try discriminate.
+    inversion H; subst. cbn [m_brackets set_brackets]. exists b0.
+    rewrite nth_error_upd_neq by lia. rewrite nth_error_app1 by exact Lk. auto.
+Qed.
+
+Lemma dbor_frame : forall b r b' out, dehb_bracket_on_result b r = Ok (b', out) ->
+  (current_rung b <= current_rung b')%nat /\
+  (current_rung b' = current_rung b -> top_list_for_previous_rung b' = top_list_for_previous_rung b).
+Proof.
+  intros b r b' out R.
+  destruct (current_rung_and_level b) as [[sl lv]|e] eqn:C.
+  2:{ unfold dehb_bracket_on_result in R. rewrite C in R.
+      destruct (negb _); [discriminate|]. destruct (negb _); discriminate. }
+  destruct (dbor_inv _ _ _ _ _ _ C R) as [_ [_ [_ [_ [v [_ Cases]]]]]]. cbv zeta in Cases.
+  destruct (crl_inv _ _ _ C) as [Nth _].
+  assert (Lc : (current_rung b < length (rungs b))%nat) by (eapply nth_error_lt; eauto).
+  destruct Cases as [[_ [-> _]]|[_ [-> _]]]; cbn [current_rung]; [|split; [lia|intro; lia]].
+  split; [lia|]. intros _.
+  unfold top_list_for_previous_rung, size_of_current_rung, current_rung_and_level. cbn [rungs current_rung bmode].
+  destruct (Nat.eqb (current_rung b) 0) eqn:Z; [reflexivity|]. apply Nat.eqb_neq in Z.
+  rewrite nth_error_upd_neq by lia. rewrite nth_error_upd_eq by exact Lc. rewrite Nth, upd_length. reflexivity.
+Qed.
+
+Lemma dmor_frame : forall m bid r m' out, dehb_mgr_on_result m bid r = Ok (m', out) ->
+  forall k b0, nth_error (m_brackets m) k = Some b0 ->
+    exists b1, nth_error (m_brackets m') k = Some b1 /\
+      (k <> bid -> b1 = b0) /\ (k = bid -> dehb_bracket_on_result b0 r = Ok (b1, out)).
+Proof.
+  intros m bid r m' out H k b0 Nk. unfold dehb_mgr_on_result in H.
+  assert (Lk : (k < length (m_brackets m))%nat) by (eapply nth_error_lt; eauto).
+  destruct (negb _); [discriminate|].
+  destruct (nth_error (m_brackets m) bid) as [b|] eqn:Nb; [|discriminate].
+  destruct (dehb_bracket_on_result b r) as [[b' tnp]|e] eqn:R; [|discriminate].
+  assert (Lb : (bid < length (m_brackets m))%nat) by (eapply nth_error_lt; eauto).
+  assert (Main : forall bs2, (bs2 = upd (m_brackets m) bid b' \/ exists x, bs2 = upd (m_brackets m) bid b' ++ [x]) ->
+            out = tnp ->
+            exists b1, nth_error bs2 k = Some b1 /\ (k <> bid -> b1 = b0) /\ (k = bid -> dehb_bracket_on_result b0 r = Ok (b1, out))).
+  { intros bs2 Hbs ->.
+    assert (N2 : nth_error bs2 k = nth_error (upd (m_brackets m) bid b') k).
+    { destruct Hbs as [->|[x ->]]; [reflexivity|]. apply nth_error_app1. rewrite upd_length. exact Lk. }
+    rewrite N2. destruct (Nat.eq_dec bid k) as [->|NE].
+    - rewrite Nb in Nk. inversion Nk; subst b0. exists b'. rewrite nth_error_upd_eq by exact Lk.
+      split; [reflexivity|]. split; [congruence|intros _; exact R].
+    - exists b0. rewrite nth_error_upd_neq by exact NE. split; [exact Nk|]. split; [reflexivity|congruence]. }
+  destruct (Nat.eqb bid (m_primary m)).
+  - destruct (nth_error (upd (m_brackets m) bid b') _) as [bp|]; [|discriminate].
+    destruct (is_bracket_complete bp).
+    + unfold dehb_create_new_bracket in H. destruct (negb _); [discriminate|].
+      inversion H; subst. cbn [m_brackets set_primary set_brackets]. apply Main; [right; eexists; reflexivity|reflexivity].
+    + inversion H; subst. cbn [m_brackets set_primary set_brackets]. apply Main; [left; reflexivity|reflexivity].
+  - inversion H; subst. cbn [m_brackets set_brackets]. apply Main; [left; reflexivity|reflexivity].
+Qed.
+
+Lemma dstep_frame : forall st o st', dstep st o = Ok st' ->
+  forall k b0, nth_error (m_brackets (d_mgr st)) k = Some b0 ->
+    exists b1, nth_error (m_brackets (d_mgr st')) k = Some b1 /\
+      (current_rung b0 <= current_rung b1)%nat /\
+      (current_rung b1 = current_rung b0 -> top_list_for_previous_rung b1 = top_list_for_previous_rung b0).
+Proof.
+  intros st o st' H k b0 Nk.
+  assert (Ans : forall i tr v, danswer st i tr v = Ok st' ->
+            exists b1, nth_error (m_brackets (d_mgr st')) k = Some b1 /\
+              (current_rung b0 <= current_rung b1)%nat /\
+              (current_rung b1 = current_rung b0 -> top_list_for_previous_rung b1 = top_list_for_previous_rung b0)).
+  { intros i tr v Ha. unfold danswer in Ha.
+    destruct (d_out st) as [|j0 O']; [inversion Ha; subst; exists b0; auto|].
+    match type of Ha with context [nth_error ?l ?k0] => destruct (nth_error l k0) as [[bid s]|] end; [|discriminate].
+    match type of Ha with context [dehb_mgr_on_result ?a1 ?a2 ?a3] =>
+      destruct (dehb_mgr_on_result a1 a2 a3) as [[m' out]|e] eqn:M end; [|discriminate].
+    inversion Ha; subst. cbn [d_mgr].
+    destruct (dmor_frame _ _ _ _ _ M _ _ Nk) as [b1 [N1 [Same Upd]]]. exists b1. split; [exact N1|].
+    destruct (Nat.eq_dec k bid) as [E|NE].
+    - exact (dbor_frame _ _ _ _ (Upd E)).
+    - rewrite (Same NE). auto. }
+  destruct o as [|i t v|i]; simpl in H.
+  - destruct (dehb_next_job (d_mgr st)) as [[m' j]|e] eqn:N; [|discriminate]. inversion H; subst. cbn [d_mgr].
+    destruct (dnext_frame _ _ _ N _ _ Nk) as [b1 [N1 [R1 [R2 R3]]]]. exists b1. split; [exact N1|].
+    split; [lia|]. intros _. apply tlfpr_ext; assumption.
+  - eapply Ans; eauto.
+  - eapply Ans; eauto.
+Qed.
+
+(* what the cache holds: for an existing bracket, under a rung index not beyond its current rung;
+   an entry for the current rung is the top list that would be computed now *)
+Definition cache_ok (st : dstate) (c : tcache) : Prop :=
+  forall bid k top, cache_get (bid, k) c = Some top ->
+    exists b, nth_error (m_brackets (d_mgr st)) bid = Some b /\ (k <= current_rung b)%nat /\
+      (current_rung b = k -> top_list_for_previous_rung b = Ok top).
+
+Lemma cache_get_cons : forall key v c k, cache_get k ((key, v) :: c) =
+  if Nat.eqb (fst k) (fst key) && Nat.eqb (snd k) (snd key) then Some v else cache_get k c.
+Proof. reflexivity. Qed.
+
+Lemma dcstep_cache_ok : forall sc o sc', cache_ok (fst sc) (snd sc) -> dcstep sc o = Ok sc' ->
+  cache_ok (fst sc') (snd sc').
+Proof.
+  intros [st c] o [st' c'] CO H. cbn [fst snd] in *. destruct o as [o|bid pos]; simpl in H.
+  - destruct (dstep st o) as [st1|e] eqn:D; [|discriminate]. inversion H; subst.
+    intros bid k top G. destruct (CO _ _ _ G) as [b [Nb [Lk Cur]]].
+    destruct (dstep_frame _ _ _ D _ _ Nb) as [b1 [N1 [Le Same]]]. exists b1. split; [exact N1|]. split; [lia|].
+    intros E. assert (current_rung b1 = current_rung b) by lia. rewrite (Same H0). apply Cur. lia.
+  - inversion H; subst st' c'. clear H. unfold top_of_previous_rung_cached.
+    destruct (nth_error (m_brackets (d_mgr st)) bid) as [b|] eqn:Nb; [|exact CO].
+    destruct (cache_get (bid, current_rung b) c) as [top0|] eqn:G0; [exact CO|].
+    destruct (top_list_for_previous_rung b) as [top|e] eqn:T; [|exact CO]. cbn [fst].
+    intros bid2 k top2 G. rewrite cache_get_cons in G. cbn [fst snd] in G.
+    destruct (Nat.eqb bid2 bid && Nat.eqb k (current_rung b)) eqn:E.
+    + apply andb_true_iff in E. destruct E as [E1 E2]. apply Nat.eqb_eq in E1. apply Nat.eqb_eq in E2. subst bid2 k.
+      inversion G; subst top2. exists b. split; [exact Nb|]. split; [lia|]. intros _. exact T.
+    + exact (CO _ _ _ G).
+Qed.
+
+Lemma dcrun_cache_ok : forall ops sc sc', cache_ok (fst sc) (snd sc) -> dcrun sc ops = Ok sc' ->
+  cache_ok (fst sc') (snd sc').
+Proof.
+  induction ops as [|o ops IH]; intros sc sc' CO H; simpl in H; [inversion H; subst; exact CO|].
+  destruct (dcstep sc o) as [sc1|e] eqn:D; [|discriminate]. eapply IH; [|exact H]. eapply dcstep_cache_ok; eauto.
+Qed.
+
+(* the cached lookup answers exactly what the uncached computation answers, in every state reachable
+   by any sequence of requests, results, failures and (also failing) top-list queries *)
+Theorem dehb_cache_transparent : forall first md nb ops st c bid pos,
+  dcrun_from first md nb ops = Ok (st, c) ->
+  snd (top_of_previous_rung_cached (d_mgr st) c bid pos) = top_of_previous_rung (d_mgr st) bid pos.
+Proof.
+  intros first md nb ops st c bid pos H. unfold dcrun_from in H.
+  destruct (dehb_mgr_init first md nb) as [m|e]; [|discriminate].
+  assert (CO : cache_ok st c).
+  { apply (dcrun_cache_ok ops (mkD m [], []) (st, c)); [|exact H]. intros b0 k top G. discriminate. }
+  unfold top_of_previous_rung_cached, top_of_previous_rung.
+  destruct (nth_error (m_brackets (d_mgr st)) bid) as [b|] eqn:Nb; [|reflexivity].
+  destruct (cache_get (bid, current_rung b) c) as [top|] eqn:G.
+  - destruct (CO _ _ _ G) as [b2 [N2 [_ Cur]]]. rewrite Nb in N2. inversion N2; subst b2.
+    rewrite (Cur eq_refl). reflexivity.
+  - destruct (top_list_for_previous_rung b); reflexivity.
+Qed.
+
+(* the manager part of such a run is the run without the queries: queries never change the brackets *)
+Fixpoint strip_queries (ops : list dcop) : list dop :=
+  match ops with [] => [] | DCOp o :: r => o :: strip_queries r | DCTop _ _ :: r => strip_queries r end.
+
+Theorem dcrun_strip : forall first md nb ops st c,
+  dcrun_from first md nb ops = Ok (st, c) -> drun_from first md nb (strip_queries ops) = Ok st.
+Proof.
+  intros first md nb ops st c H. unfold dcrun_from in H. unfold drun_from.
+  destruct (dehb_mgr_init first md nb) as [m|e]; [|discriminate].
+  revert H. generalize (mkD m []) ([] : tcache). induction ops as [|o ops IH]; intros st0 c0 H; simpl in H.
+  - inversion H; reflexivity.
+  - destruct o as [o|bid pos]; simpl in H; simpl.
+    + destruct (dstep st0 o) as [st1|e]; [|discriminate]. eapply IH; eauto.
+    + eapply IH; eauto.
+Qed.
